@@ -13,6 +13,7 @@ TRUSTED_BASE_COMMON = [
 FAMILIES = {
     "codec": dict(src="codec.cpp"),
     "conv": dict(src="conv.cpp"),
+    "pool": dict(src="pool.cpp"),
 }
 
 DEFAULT_MODE_VARIANTS = ["", "-DST_DEFAULT_VALIDATION=ST::substitute_invalid -DVH_DEFAULT_MODE=\"s\"",
@@ -88,10 +89,23 @@ PROPS.update({
     ),
 })
 
+PROPS.update({
+    "C05": dict(
+        family="pool", theorems=[],
+        rule="histories of buffer operations with a full snapshot of every live object after every step: every sequence of 2 (quick) / 3 (thorough) operations "
+             "from a 25-entry menu (clear, copy/move assignment incl. self, allocate, allocate+fill around the limit, destroy+reconstruct by copy/move) applied to three "
+             "objects in all 6x6x3 size-class combinations, plus seeded random histories of 30 operations over 3..6 objects for all four element types; ASan + LSan. "
+             "non-trivial = more than 3 operations",
+        exhaustive={"quick": False, "thorough": False},
+    ),
+})
+
 PENDING = "not yet built in this round (machinery under construction; see DESIGN.md section 8)"
 NOT_APPLICABLE = {("C%02d" % i): PENDING for i in range(1, 21)}
 
 MANIFEST_TEXT = {
+    "C05": dict(text="(under construction) object/heap machine for ST::buffer<T>; histories compared with the implementation step by step",
+                design_ref="DESIGN.md section 3, C04/C05", note="see evidence", technique="Lean 4 proof over a hand model + differential correspondence under ASan/LSan"),
     "C01": dict(
         text="Theorems (all scalar sequences by induction, all three modes): each of the six UTF-8/16/32 directions, ST::string construction from any encoding and "
              "the to_* members map the standard encoding (Unicode Table 3-6 / D91 written with / and %) to the standard encoding, chains return the original units, "
